@@ -619,6 +619,16 @@ func checkTags(e *Env, p *load.Program, pk *packages.Package) {
 			}
 			key := n.Obj().Name() + "." + f.Name()
 			checkValidateTag(e, p, key, f, tag)
+			// go-ucfg tag options (util.go parseTags, trusted): `ignore` skips the field on unpack; `squash`/`inline` read its
+			// keys from the parent level, where neither encoding/json nor (without its own inline) yaml.v2 writes them
+			if full, _ := reflect.StructTag(tag).Lookup("config"); strings.Contains(full, ",") {
+				for _, opt := range strings.Split(full, ",")[1:] {
+					switch opt {
+					case "ignore", "squash", "inline":
+						r.Bad("E4.tags", key+"/option-"+opt, p.Pos(f.Pos()), fmt.Sprintf("field %s carries the go-ucfg option %q: the configuration path does not read the field from where the marshallers write it, so a policy read back through that path loses it", key, opt))
+					}
+				}
+			}
 			r.Check(cfg == js && cfg == ym, "E4.tags", key, p.Pos(f.Pos()),
 				fmt.Sprintf("config=json=yaml=%q", cfg),
 				fmt.Sprintf("field %s is read from config key %q but written as json %q / yaml %q: a marshalled policy read back through the config path loses this field", key, cfg, js, ym))
